@@ -1278,25 +1278,26 @@ class Field(
             # --------------------------------------------------------
             flattened_data = data.flatten(range(data.ndim - 1))
 
-            # Try to get the counts from an auxiliary coordinate
-            # construct that spans the same axes as the field data
-            count = None
+            # Get the counts from the field data and from every
+            # metadata construct that spans the same axes as the field
+            # data (and which is therefore compressed with the same
+            # counts): each count is the largest number of leading
+            # elements that any of these arrays needs, so that no
+            # non-missing element of any of them is lost.
+            count = _derive_count(flattened_data)
             data_axes = f.get_data_axes()
             construct_axes = f.constructs.data_axes()
-            for key, c in (
-                f.auxiliary_coordinates().filter_by_data(todict=True).items()
-            ):
-                if construct_axes[key] != data_axes:
+            for key, c in f.constructs.filter_by_data(todict=True).items():
+                if construct_axes.get(key) != data_axes:
                     continue
 
-                count = _derive_count(c.data.flatten(range(c.ndim - 1)))
-                break
-
-            if count is None:
-                # When no auxiliary coordinate constructs span the
-                # field data dimensions, get the counts from the field
-                # data.
-                count = _derive_count(flattened_data)
+                count = [
+                    max(m, n)
+                    for m, n in zip(
+                        count,
+                        _derive_count(c.data.flatten(range(c.ndim - 1))),
+                    )
+                ]
 
             N = sum(count)
             compressed_field_data = _empty_compressed_data(data, (N,))
